@@ -169,10 +169,32 @@ fn check_round_trip(ctx: &mut Ctx, v: &Response<'static>, wire: &[u8], rest: &[u
     }
 }
 
+/// wall-clock budget of the directed passes (one re-run of the whole generator per new source constant, with
+/// that constant as counts and lengths: the values are large and every one goes through the model driver)
+thread_local! {
+    static DEADLINE_MS: std::cell::Cell<u64> = const { std::cell::Cell::new(0) };
+}
+fn now_ms() -> u64 {
+    std::time::SystemTime::now().duration_since(std::time::UNIX_EPOCH).map(|d| d.as_millis() as u64).unwrap_or(0)
+}
+/// in a directed pass, values whose wire form is very long are skipped (one such value can keep the model
+/// driver busy for minutes; the ordinary run has its own long-input classes)
+fn too_large_for_directed(wire: &[u8]) -> bool {
+    DEADLINE_MS.with(|c| c.get()) != 0 && wire.len() > 12_000
+}
+fn past_deadline() -> bool {
+    let d = DEADLINE_MS.with(|c| c.get());
+    d != 0 && now_ms() > d
+}
+
 fn run_c03(ctx: &mut Ctx, rng: &mut Rng, thorough: bool, shard: usize, shards: usize, adversarial: bool) {
     let n = vh_proto::srcdict::scaled(if thorough { 600_000 } else { 60_000 } / shards);
     let class = if adversarial { "literal-interference" } else { "fidelity" };
     for i in 0..n {
+        if past_deadline() {
+            ctx.log.count("directed-pass-budget-reached");
+            break;
+        }
         let kind = (i * shards + shard) % KINDS.len();
         let cfg = cfg_for(i, adversarial || i % 3 == 0, thorough);
         let s = rng.next_u64();
@@ -184,6 +206,10 @@ fn run_c03(ctx: &mut Ctx, rng: &mut Rng, thorough: bool, shard: usize, shards: u
                 continue;
             }
         };
+        if too_large_for_directed(&wire) {
+            ctx.log.count("directed:skipped-large");
+            continue;
+        }
         ctx.log.count(&format!("kind:{}", KINDS[kind]));
         ctx.log.nontrivial(&hex(&wire));
         let rest: Vec<u8> = if adversarial || rng.chance(1, 3) {
@@ -226,6 +252,10 @@ fn run_c03(ctx: &mut Ctx, rng: &mut Rng, thorough: bool, shard: usize, shards: u
 fn run_c12(ctx: &mut Ctx, rng: &mut Rng, thorough: bool, shard: usize, shards: usize) {
     let n = vh_proto::srcdict::scaled(if thorough { 300_000 } else { 30_000 } / shards);
     for i in 0..n {
+        if past_deadline() {
+            ctx.log.count("directed-pass-budget-reached");
+            break;
+        }
         let kind = (i * shards + shard) % KINDS.len();
         let cfg = cfg_for(i, false, thorough);
         let s = rng.next_u64();
@@ -234,6 +264,10 @@ fn run_c12(ctx: &mut Ctx, rng: &mut Rng, thorough: bool, shard: usize, shards: u
         for _ in 0..k {
             let ss = rng.next_u64();
             if let Some((_v, wire, desc)) = gen_and_print(s, kind, &cfg, ss) {
+                if too_large_for_directed(&wire) {
+                    ctx.log.count("directed:skipped-large");
+                    continue;
+                }
                 let out = ctx.eval(&wire, KINDS[kind]);
                 outs.push((wire, out, desc));
             }
@@ -645,6 +679,9 @@ fn run_c16(ctx: &mut Ctx, rng: &mut Rng, thorough: bool, shard: usize, shards: u
     }
     for req in &reqs {
         for _ in 0..reps {
+            if past_deadline() {
+                break;
+            }
             idx += 1;
             if idx % shards != shard {
                 continue;
@@ -655,6 +692,10 @@ fn run_c16(ctx: &mut Ctx, rng: &mut Rng, thorough: bool, shard: usize, shards: u
     // random orders (the builder emits attributes in call order)
     let n = vh_proto::srcdict::scaled(if thorough { 20_000 } else { 2_000 } / shards);
     for _ in 0..n {
+        if past_deadline() {
+            ctx.log.count("directed-pass-budget-reached");
+            break;
+        }
         let k = rng.range(1, 6) as usize;
         let v: Vec<usize> = (0..k).map(|_| rng.usize(11)).collect();
         eval_request(ctx, rng, &Req::Attrs(v), thorough);
@@ -774,6 +815,8 @@ fn main() {
                     _ => {}
                 }
                 // directed passes: one per constant of /repo's sources that the baseline does not have
+                // the budget is per shard (thread-local) and starts after the shard's ordinary run
+                DEADLINE_MS.with(|c| c.set(now_ms() + if thorough { 900_000 } else { 90_000 }));
                 for (fo, _name) in vh_proto::srcdict::foci() {
                     vh_proto::srcdict::with_focus(fo, || match prop.as_str() {
                         "C03" => run_c03(&mut ctx, &mut rng, thorough, shard, shards, false),
